@@ -1,6 +1,7 @@
 import PexpectModel.Async
+import PexpectModel.AsyncCancel
 import PexpectModel.Drv.Ex
-/-! driver for mixed sync / async histories:  AY op… @ ev…   op = x|r|ax|ar :W:pats | b:hex    ev = d=… | E | L | T -/
+/-! driver for mixed sync / async histories:  AY op… @ ev…   op = x|r|ax|ar|cx|cr :W:pats | b:hex | i    ev = d=… | E | L | T -/
 namespace Drv.AsyncD
 open Ex Py Drv Drv.ExD
 
@@ -23,7 +24,7 @@ def runLine (ops : List String) (evs : List (AEv Nat)) : Option (List String) :=
       | [k, w, ps] =>
           match w.toNat?, parsePats ps with
           | some W, some pats =>
-            let exact := k == "x" || k == "ax"
+            let exact := k == "x" || k == "ax" || k == "cx"
             let kd := kindOf exact pats
             if k == "x" || k == "r" then
               let r := acall kd.sr W s.st evs
@@ -31,9 +32,20 @@ def runLine (ops : List String) (evs : List (AEv Nat)) : Option (List String) :=
             else if k == "ax" || k == "ar" then
               let r := acallS kd.sr W s evs
               go rest r.2.1 r.2.2 (showFinal (finish pats r.1) r.2.1.st :: acc)
+            else if k == "cx" || k == "cr" then
+              -- an awaited call its caller gives up (Ex.hrun, `.abandoned`): the give-up point is the `T` marker in the events
+              let r := acall kd.sr W s.st evs
+              match r.1 with
+              | .timeout _ => go rest { st := r.2.1, pw := { s.pw with connected := true, paused := false, futDone := true } } r.2.2 ("CANCELLED" :: acc)
+              | o => go rest { st := r.2.1, pw := pwAfter s.pw (existingHit kd.sr W s.st) o } r.2.2 (showFinal (finish pats o) r.2.1 :: acc)
             else none
           | _, _ => none
       | ["b", h] => go rest { s with st := setBuffer (decList h) } evs ("set" :: acc)
+      | ["i"] =>
+          -- the next loop event is delivered while no call is outstanding (Ex.hrun, `.idle`)
+          match evs with
+          | .dataReceived d :: r => go rest { s with st := doneData s.st d } r ("idle" :: acc)
+          | _ => go rest s evs ("idle-none" :: acc)
       | _ => none
   go ops { st := { B := [], S := [] }, pw := {} } evs []
 
